@@ -58,6 +58,27 @@ theorem op_source_forms_modelled :
       "assert not kwargs ;; if args: shape, = args shape = tuple(shape) args = (shape,) ;; return super().hash_args_kwargs(args, kwargs)" := by
   refine ⟨?_, ?_, ?_⟩ <;> rfl
 
+/-- Unpickling rebuilds an interned domain through `Array[(dtype, shape)]` — exactly the key it was
+    interned under, which is what the model's `rebuild` re-constructs from (`o.args`) — for all three
+    metaclasses; an op through its class with its bound parameters; deep copies of ops are the op. -/
+theorem reduce_source_forms_modelled :
+    FV.Gen.C07.domainReduceForm =
+      "if cls in (Array, Bint, Real, Reals): return cls.__name__ ;; return (operator.getitem, (Array, (cls.dtype, cls.shape)))" ∧
+    FV.Gen.C07.domainCopyregForm =
+      "copyreg.pickle(ArrayType, _pickle_array) ;; copyreg.pickle(BintType, _pickle_array) ;; copyreg.pickle(RealsType, _pickle_array)" ∧
+    FV.Gen.C07.opReduceForm = "return (apply, (type(self), (), self.defaults))" ∧
+    FV.Gen.C07.opDeepcopyForm = "return self" := by
+  refine ⟨?_, ?_, ?_, ?_⟩ <;> rfl
+
+/-- `Bint[2,3]` and `Array[2,(3,)]` are one key, different from the scalar `Bint[2]`'s: a reducer
+    that dropped the shape would rebuild a different object. -/
+theorem shaped_bint_key :
+    ((splitTop [.lp, .int 2, .int 3, .rp] >>= normArgs "Bint").map List.flatten >>= mkKey) =
+    ((splitTop [.int 2, .lp, .int 3, .rp] >>= normArgs "Array").map List.flatten >>= mkKey) ∧
+    ((splitTop [.lp, .int 2, .int 3, .rp] >>= normArgs "Bint").map List.flatten >>= mkKey) ≠
+    ((splitTop [.int 2] >>= normArgs "Bint").map List.flatten >>= mkKey) := by
+  decide
+
 /-- Hash-equal is not key-equal: `SumOp(axis=-1)` and `SumOp(axis=-2)` have different keys,
     `SumOp(1)`, `SumOp(1.0)`, `SumOp(True)` have the same. -/
 theorem op_key_eq_not_hash :
